@@ -72,6 +72,10 @@ ASSUMPTIONS = [
     "source, at least one scalar feature requested (non-scalar columns of the fixtures "
     "are shorter than the dataset)",
     "features=[] and skip_checks=True with features of unequal length are not generated",
+    "tdms features that the writer stores unsigned (fl?_max ...) and that hold negative "
+    "values in a fixture are not requested (counted)",
+    "box filters of the harness model: lo <= x <= hi, NaN excluded; on disagreement with "
+    "ds.filter.all the latter defines the selection (counted; filter semantics are C03)",
     "log lines exclude NUL / control characters"]
 
 IMG = (6, 9)        # 54 bytes / event
@@ -194,9 +198,9 @@ def st_spec(draw):
                                    unique=True))
     spec["masks"] = [draw(st_mask(c, "parent")) for _ in range(depth)] \
         + [draw(st_mask(c))]
-    spec["box"] = draw(st.one_of(
-        st.none(), st.none(), st.none(), st.none(),
-        st.tuples(st.integers(0, 5), st.integers(-8, 8), st.integers(-8, 8)).map(list)))
+    BOX = st.tuples(st.integers(0, 5), st.integers(-8, 8), st.integers(-8, 8)).map(list)
+    spec["box"] = draw(st.one_of(st.none(), st.none(), st.none(), st.none(), BOX))
+    spec["pbox"] = [draw(st.one_of(st.none(), st.none(), BOX)) for _ in range(depth)]
     # export list: indices into the available features (+ "index"), with duplicates
     spec["export"] = draw(st.lists(st.integers(0, 30), min_size=1, max_size=7))
     spec["export_all"] = draw(st.sampled_from([False, False, True]))
@@ -261,7 +265,8 @@ def enumerate_cases(tier):
     for src in ("dict", "hdf5", "basin"):
         for depth in (1, 2):
             for m in K[2:]:
-                yield _fixed(src, m, depth=depth, n=64, temp_in_file=(depth == 1))
+                yield _fixed(src, m, depth=depth, n=64, temp_in_file=(depth == 1),
+                             pbox=[[1, -8, 7], None][:depth])
     yield _fixed("basin", M[5], basin_mapped=True, split=9)
     yield _fixed("basin", M[5], basin_mapped=True, split=9, filtered=False)
     for src in ("dict", "hdf5"):
@@ -620,7 +625,16 @@ def build_tdms(spec, d, rec, S):
     S.n = len(ds)
     S.rootmap = np.arange(S.n)
     innate = ds.features_innate
-    sc = [f for f in innate if f in ds.features_scalar]
+    sc = []
+    for f in innate:
+        if f in ds.features_scalar:
+            if f in dwriter.FEATURES_UINT32 + dwriter.FEATURES_UINT64 and np.any(
+                    np.asarray(ds[f]) < 0):
+                # negative values in a feature that the writer documents as
+                # unsigned: outside the domain (DESIGN §4)
+                rec.skip("tdms:negative-values-in-unsigned-feature")
+                continue
+            sc.append(f)
     S.avail = sc + [f for f in TDMS_NONSC if f in innate]
     S.tdms = True
     lens = {}
@@ -630,15 +644,32 @@ def build_tdms(spec, d, rec, S):
                        if f == "trace" else len(ds[f]))
     S.tdms_lens = lens
 
+    # Reference = event-wise integer access of a *second* instance, read once,
+    # in increasing order, before the export (the video reader of this
+    # environment returns wrong frames after a backward seek, so the reference
+    # must not share the reader with the export or jump backwards).
+    rds = dclab.new_dataset(path)
+    S.closers.append(rds)
+    cache = {}
+    for f in TDMS_NONSC:
+        if f in lens and f != "trace":
+            cache[f] = [np.array(rds[f][i]) for i in range(lens[f])]
+    if "trace" in lens:
+        cache["trace"] = {t: np.array([np.asarray(rds["trace"][t][i])
+                                       for i in range(lens["trace"])])
+                          for t in rds["trace"].keys()}
+    for f in sc:
+        cache[f] = np.array(rds[f])
+
     def ref(f, ridx):
+        ridx = np.asarray(ridx, dtype=int)
         if f == "contour":
-            return [np.asarray(ds[f][int(i)]) for i in ridx]
+            return [cache[f][i] for i in ridx]
         if f == "trace":
-            return {t: np.array([np.asarray(ds[f][t][int(i)]) for i in ridx])
-                    for t in ds[f].keys()}
+            return {t: v[ridx] for t, v in cache[f].items()}
         if f in ("image", "mask"):
-            return np.array([np.asarray(ds[f][int(i)]) for i in ridx])
-        return np.asarray(ds[f])[np.asarray(ridx, dtype=int)]
+            return np.array([cache[f][i] for i in ridx])
+        return cache[f][ridx]
     S.ref = ref
     S.meta = None
     return S
@@ -681,44 +712,57 @@ def _run(spec, rec, d, S):
     depth = spec["depth"]
     rec.cls("depth:%d" % depth)
     tdms = src == "tdms"
-    # ---- hierarchy levels
+    # ---- hierarchy levels and the filter of the exported dataset
     ds = S.ds
     ridx = np.arange(S.n)          # indices into the root for the current level
-    for lv in range(depth):
-        m = expand_mask(spec["masks"][lv], len(ridx))
-        if not m.any():
-            m[len(m) // 2] = True  # a child without events cannot be exported
+    boxes = list(spec.get("pbox") or [])[:depth] + [None] * depth
+    boxes = boxes[:depth] + [spec.get("box")]
+    sel = None
+    for lv in range(depth + 1):
+        nlev = len(ridx)
+        if len(ds) != nlev:
+            rec.skip("level-length-mismatch")
+            return
+        last = lv == depth
+        m = expand_mask(spec["masks"][lv], nlev)
+        if not last and not m.any():
+            m[nlev // 2] = True    # a child without events cannot be exported
         ds.filter.manual[:] = m
+        model = m.copy()
+        box = boxes[lv]
+        if box and not tdms:
+            fl = [f for f in S.avail if f in FLOAT_SC]
+            lo, hi = sorted((box[1] * 0.5, box[2] * 0.5))
+            if fl and lo != hi:
+                f = fl[box[0] % len(fl)]
+                ds.config["filtering"][f + " min"] = lo
+                ds.config["filtering"][f + " max"] = hi
+                rec.cls("box-filter" if last else "box-filter-parent")
+                x = np.asarray(S.ref(f, ridx), dtype=float)
+                with np.errstate(invalid="ignore"):
+                    model &= (x >= lo) & (x <= hi) & ~np.isnan(x)
+        if last and not spec["enable"]:
+            ds.config["filtering"]["enable filters"] = False
+            model[:] = True
         ds.apply_filter()
+        fa = np.array(ds.filter.all, dtype=bool, copy=True)
+        if not eqnan(fa, model):
+            # the combined filter itself is the subject of C03; the selection
+            # that defines "the selected events" here is ds.filter.all
+            rec.skip("filter-differs-from-harness-model")
+        if last:
+            sel = fa
+            break
+        if not fa.any():
+            rec.skip("parent-selection-empty")
+            return
         ch = dclab.new_dataset(ds)
         S.closers.append(ch)
-        ridx = ridx[m]
+        ridx = ridx[fa]
         rec.check(len(ch) == len(ridx), "hierarchy/child-length",
                   lambda: f"len(child)={len(ch)} expected {len(ridx)}")
         ds = ch
     nlev = len(ridx)
-    if len(ds) != nlev:
-        rec.skip("level-length-mismatch")
-        return
-    # ---- filter of the exported dataset
-    m = expand_mask(spec["masks"][depth], nlev)
-    ds.filter.manual[:] = m
-    box = spec.get("box")
-    if box and not tdms:
-        fl = [f for f in S.avail if f in FLOAT_SC]
-        if fl:
-            f = fl[box[0] % len(fl)]
-            lo, hi = sorted((box[1] * 0.5, box[2] * 0.5))
-            if lo != hi:
-                ds.config["filtering"][f + " min"] = lo
-                ds.config["filtering"][f + " max"] = hi
-                rec.cls("box-filter")
-    if not spec["enable"]:
-        ds.config["filtering"]["enable filters"] = False
-    ds.apply_filter()
-    sel = np.array(ds.filter.all, dtype=bool, copy=True)
-    if not box and spec["enable"]:
-        rec.check(eqnan(sel, m), "harness/filter-is-manual-mask", "")
     filtered = spec["filtered"]
     if not filtered:
         rec.cls("unfiltered")
